@@ -161,19 +161,19 @@ def ens_wtp_fixed(self, old_self):
     return fixed_cfg(self) == fixed_cfg(old_self)
 
 
-def ens_wtp_header(self, old_self, to_node):
+def ens_wtp_header(self, old_self, to_node, is_multicast):
     """after sending, the caller's header shows its original type again (C11) and nothing but
     `reserved` differs (a loop-back enqueue may retype an external-data fragment by reference)"""
     h = self.frame_buf.header
     oh = old_self.frame_buf.header
-    return (implies(to_node != old_self._addr, h.message_type == oh.message_type)
+    return (implies(to_node != old_self._addr or bool(is_multicast), h.message_type == oh.message_type)
             and h.from_node == oh.from_node and h.to_node == oh.to_node
             and h.frame_id == oh.frame_id and bytes(self.frame_buf.message) == bytes(old_self.frame_buf.message))
 
 
-def ens_wtp_loopback(self, old_self, to_node):
+def ens_wtp_loopback(self, old_self, to_node, is_multicast):
     """a frame for this node itself is queued, never transmitted: the radio is not touched"""
-    return implies(to_node == old_self._addr, fixed_all_radio(self) == fixed_all_radio(old_self))
+    return implies(to_node == old_self._addr and not bool(is_multicast), fixed_all_radio(self) == fixed_all_radio(old_self))
 
 
 def fixed_all_radio(self):
@@ -185,7 +185,7 @@ def fixed_all_radio(self):
 def abs_write_to_pipe(self, to_node, to_pipe, is_multicast):
     require(home_ok(self) and (valid_address(to_node) or (to_node == 0o10000 and to_pipe == 0 and bool(self.allow_multicast)))
             and 0 <= to_pipe and to_pipe <= 5, "_write_to_pipe: radio_home, valid target")
-    if to_node == self._addr:
+    if to_node == self._addr and not bool(is_multicast):
         return self.queue.enqueue(self.frame_buf)
     havoc_radio_io(self)
     havoc_tx_cfg(self)
@@ -197,7 +197,7 @@ def abs_write_to_pipe(self, to_node, to_pipe, is_multicast):
 
 def ens_wtp_aa(self, old_self, to_node, is_multicast):
     """a multicast is transmitted with auto-ack off on every pipe that could acknowledge it"""
-    return implies(to_node != old_self._addr and bool(is_multicast), self._rf24._spi.hw.reg[1] == 0x3E)
+    return implies(bool(is_multicast), self._rf24._spi.hw.reg[1] == 0x3E)
 
 
 # ---- _write / _net_update ---------------------------------------------------------------------
@@ -470,7 +470,7 @@ CONTRACTS = [
              {"self": net_schema(), "to_node": Int(0, 4095), "to_pipe": Int(0, 5), "is_multicast": Bool()},
              requires=[R + "req_wtp"], ensures=[("home", R + "ens_wtp"), ("fixed", R + "ens_wtp_fixed"), ("header", R + "ens_wtp_header"),
                                                 ("loopback", R + "ens_wtp_loopback"), ("mc_no_ack", R + "ens_wtp_aa")], raises=(),
-             policy=dict(POL, **{M + "_tx_standby": "ref:" + R + "abs_tx_standby"}), loops=LOOPS_WTP, props=["C07", "C15"], replayable=False),
+             policy=dict(POL, **{M + "_tx_standby": "ref:" + R + "abs_tx_standby"}), loops=LOOPS_WTP, props=["C07", "C15", "C11"], replayable=False),
     Contract("C07._write", M + "_write", {"self": net_schema(), "write_direct": Int(0, 4095), "send_type": Int(0, 4)},
              requires=[R + "req_write"], ensures=DIAG + [("listening", R + "ens_node_ok"), ("header", R + "ens_write_hdr")], raises=(), policy=POL_ABS,
              loops={(M + "_write", 0): LoopSpec(R + "inv_ack_wait", havoc=[R + "havoc_update"], frame=R + "fixed_cfg")},
